@@ -42,13 +42,13 @@ class SeqIEngine(SeqEngine):
         w = self.world
         res = self.res
         with seam.activate(w.run, 0):
-            w.open_store()
+            self.open()
             self.model = w.model()
             for i, op in enumerate(self.prog["ops"]):
                 if self.res.violations:
                     break
                 if op["op"] == "restart":
-                    w.open_store()
+                    self.open()
                     continue
                 if self.interrupted:
                     self.sync_objects()
@@ -59,6 +59,12 @@ class SeqIEngine(SeqEngine):
                     self.normal_call(i, op)
                 if not self.res.violations:
                     self.api_probes(i, op)
+
+    def open(self):
+        w = self.world
+        w.open_store()
+        if w.knobs.get("two_instances"):
+            w.second()  # both clients exist before any interruption plan is armed
 
     def normal_call(self, i, op):
         w, mdl = self.world, self.model
@@ -105,7 +111,7 @@ class SeqIEngine(SeqEngine):
             self.kinds.add("crash")
             self.interrupted = True
             self.history.append({"step": i, "op": op, "crash": site})
-            w.open_store()
+            self.open()
             self.resync(i, op, pre, crashed=True)
         else:
             fp = seam.FaultPlan(plan["index"], ERRNOS[plan.get("errno", "EIO")], plan.get("persistent") or False)
@@ -144,6 +150,38 @@ class SeqIEngine(SeqEngine):
                     self.props(), "after-interruption", "seqi:outcome:%s:%s->%s" % (op["op"], _expsig(exp), _outsig(out or ("exc", "?"))),
                     {"op": op, "expected": exp.describe(), "interruptions": self.history}, i))
 
+    # -- read-only calls in states left behind by interruptions (C17) ------------------------------
+    RO_FORBIDDEN = seam.MUTATING - frozenset(["flock"])
+
+    def ro(self, op, i=None):
+        """A read-only call (retrieve_object / retrieve_metadata) in whatever state the interruptions left
+        behind: when it SUCCEEDS it must not have changed the store (C17).  Cheap detection through the seam
+        log; the directory snapshot is compared only when the call issued a mutating file operation."""
+        w = self.world
+        mark = len(w.run.log)
+        before = None
+        if self.ro_armed:
+            before = W.snapshot(w.store_root)
+        out, extra = w.exec_op(op)
+        muts = [e.brief() for e in w.run.log[mark:] if e.kind in self.RO_FORBIDDEN and e.cls not in ("input", "sandbox")]
+        if muts and out[0] == "ok":
+            if before is None:
+                # first sight: arm the snapshots and let the rest of the history show it again (the store is
+                # deterministic: the same state and call recur at the next probe pass) -- and report now if the
+                # mutation is plainly visible in the permanent tree
+                self.ro_armed = True
+                if any(("refs/" in m or "objects" in m or "metadata" in m) and "tmp" not in m for m in muts):
+                    self.res.violations.append(Violation(
+                        {"C17"}, "readonly-changed", "seqi:readonly-call-wrote:%s" % op["op"],
+                        {"op": op, "pid": w.pids[op["pid"]], "mutating_events": muts[:8], "interruptions": self.history}, i))
+            elif W.snapshot(w.store_root) != before:
+                self.res.violations.append(Violation(
+                    {"C17"}, "readonly-changed", "seqi:readonly-call-changed:%s" % op["op"],
+                    {"op": op, "pid": w.pids[op["pid"]], "mutating_events": muts[:8], "interruptions": self.history}, i))
+        return out, extra
+
+    ro_armed = False
+
     # -- re-synchronisation from observation -------------------------------------------------------
     def sync_objects(self):
         a = self.world.alpha()
@@ -159,7 +197,9 @@ class SeqIEngine(SeqEngine):
             self.props(), "after-interruption", sig, dict(detail, op=op, interruptions=self.history), i))
         self.sync_objects()
         if name in OBJ_OPS:
-            out, _ = w.exec_op({"op": "retrieve", "pid": pi})
+            out, _ = self.ro({"op": "retrieve", "pid": pi}, i)
+            if res.violations:
+                return
             legit = {}
             if pid in pre.pid2cid and pre.pid2cid[pid] in pre.cid_bytes:
                 legit[pre.cid_bytes[pre.pid2cid[pid]]] = pre.pid2cid[pid]
@@ -228,7 +268,9 @@ class SeqIEngine(SeqEngine):
         fmts = [None] + list(range(len(w.formats)))
         for f in fmts:
             key = (pid, mdl.fmt(None if f is None else w.formats[f]))
-            out, _ = w.exec_op({"op": "rmeta", "pid": pi, "fmt": f})
+            out, _ = self.ro({"op": "rmeta", "pid": pi, "fmt": f})
+            if self.res.violations:
+                return
             allowed = set()
             if key in pre.meta:
                 allowed.add(pre.meta[key])
@@ -262,7 +304,9 @@ class SeqIEngine(SeqEngine):
             return
         for pi, pid in enumerate(w.pids):
             pexp = mdl.op_retrieve({"pid": pi})
-            out, _ = w.exec_op({"op": "retrieve", "pid": pi})
+            out, _ = self.ro({"op": "retrieve", "pid": pi}, i)
+            if res.violations:
+                return
             if not pexp.matches(out):
                 # partial reference conditions of an interrupted pid are legitimate until it is re-bound
                 if not pexp.has_ok and out[0] == "exc" and out[1] in NOTFOUND_OK | {"PidRefsDoesNotExist"}:
@@ -275,7 +319,9 @@ class SeqIEngine(SeqEngine):
         for pi, pid in enumerate(w.pids):
             for f in [None] + list(range(len(w.formats))):
                 pexp = mdl.op_rmeta({"pid": pi, "fmt": f})
-                out, _ = w.exec_op({"op": "rmeta", "pid": pi, "fmt": f})
+                out, _ = self.ro({"op": "rmeta", "pid": pi, "fmt": f}, i)
+                if res.violations:
+                    return
                 if not pexp.matches(out):
                     p = self.props() | ({"C09"} if out[0] == "ok" else set())
                     res.violations.append(Violation(
